@@ -14,7 +14,7 @@ func init() {
 // the data directory is copied before every OS-layer call, every page write and file truncate
 // and at every operation boundary; afterwards a fresh Store is opened on every copy.
 func genCrash(c *Ctx) error {
-	c.Stats.Rule = "per shape (first transaction, grow, shrink, multi-segment journal incl. a segment ending on a sector boundary, each journal mode, WAL first/next/after restart, rolled-back transactions, LiteFS checkpoint, drop, import, replica snapshot / incremental / tombstone apply): every crash point inside the operation is enumerated (exhaustive in the crash index) and a fresh Store is opened on the copy. Non-trivial = shape with at least 5 crash points of which at least one recovers to the state before and one to the state after; distinct = distinct (shape, page size, mode)."
+	c.Stats.Rule = "per shape (first transaction, grow, shrink, multi-segment journal incl. a segment ending on a sector boundary, each journal mode, WAL first transaction after the mode switch / next / after restart, rolled-back transactions, LiteFS checkpoint, drop, import, replica snapshot / incremental / tombstone apply): every crash point inside the operation is enumerated (exhaustive in the crash index) and a fresh Store is opened on the copy. Non-trivial = shape with at least 5 crash points of which at least one recovers to the state before and one to the state after; distinct = distinct (shape, page size, mode)."
 	c.Stats.Exhaustive = true
 	r := c.Rng
 	type shape struct {
@@ -60,6 +60,12 @@ func genCrash(c *Ctx) error {
 		{"journal-rollback-early", journal("TRUNCATE", modify, 0, 1)},
 		{"wal-tx", func(p *pager, do func(string) string) { p.walTx(p.randomShape(3), false, true, true) }},
 		{"wal-rollback", func(p *pager, do func(string) string) { p.walTx(p.randomShape(3), true, false, false) }},
+		// the first transaction through the WAL after the switch to WAL mode: the newest
+		// transaction file (the journal commit of page 1 that made the switch) carries no WAL position
+		{"wal-first-tx", func(p *pager, do func(string) string) { p.walTx(p.randomShape(3), false, true, true) }},
+		{"wal-first-tx-pages", func(p *pager, do func(string) string) {
+			p.walTx(txShape{newN: len(p.img) + 1, pages: map[int]bool{1: true, 2: true, len(p.img) + 1: true}, commit: true}, false, false, false)
+		}},
 		{"wal-shrink", func(p *pager, do func(string) string) {
 			p.walTx(txShape{newN: max(1, len(p.img)-2), pages: map[int]bool{1: true}}, false, false, false)
 		}},
@@ -148,7 +154,9 @@ func genCrash(c *Ctx) error {
 			if wal {
 				p.wal = true
 				p.journalTx(txShape{newN: len(p.img), pages: map[int]bool{1: true}, commit: true}, 0, 0)
-				p.walTx(p.randomShape(3), false, false, false)
+				if !strings.HasPrefix(sh.name, "wal-first") {
+					p.walTx(p.randomShape(3), false, false, false)
+				}
 				if sh.name == "wal-tx" && r.Bool() {
 					p.sqliteCheckpoint(true, false)
 				}
